@@ -1090,6 +1090,19 @@ static void run_line(char *line)
 		op_end_r(rbuf, NULL);
 		free(p);
 		free(v);
+	} else if (!strcmp(w[0], "SSA") && n == 4) {
+		/* set a string from the very string the option holds at that index: cfg_setnstr(cfg, n, cfg_getnstr(cfg, n, i), i) */
+		char *p = unhex(w[2], NULL);
+		unsigned int idx = (unsigned int)strtoul(w[3], NULL, 10);
+		int rc;
+
+		NEEDCTX(1);
+		op_begin();
+		setter_kind = 'S';
+		rc = cfg_setnstr(CTX(1), p, cfg_getnstr(CTX(1), p, idx), idx);
+		snprintf(rbuf, sizeof rbuf, "R %d\n", rc);
+		op_end_r(rbuf, NULL);
+		free(p);
 	} else if (!strcmp(w[0], "SOA") && n == 3) {
 		/* set a string option from the very string it holds: the argument aliases what the call releases */
 		char *p = unhex(w[2], NULL);
